@@ -290,7 +290,12 @@ func runC03(tier string, seed uint64) int {
 		agg.add("solo_reference_runs", int64(2*len(lines)-4))
 		r := NewRng(mix(bseed, 77))
 		scheds := genSchedules(r, len(lines), nSched)
+		inputsBefore := treeDigest(root)
 		runSchedules("C03", agg, bin, root, lines, refs, scheds, scratch, fmt.Sprintf("b%ds", b), 3)
+		if ok, why := sameHashes(inputsBefore, treeDigest(root)); !ok {
+			agg.violate("C03", "run_wrote_outside_its_result_folder", "the project / weather / parameter trees changed during the batch executions: "+why)
+		}
+		agg.add("input_tree_files_compared", int64(len(inputsBefore)))
 		agg.add("batches", 1)
 		agg.add("batch_lines", int64(len(lines)))
 		for _, l := range lines {
@@ -430,6 +435,7 @@ func runC11(tier string, seed uint64) int {
 		batches = append(batches, all)
 		scheds = append(scheds, schedule{Concurrent: []int{16, 3, 1, 8}[k%4], DelaySeed: uint64(k), DelayMaxUS: 2000 * (k % 2)})
 	}
+	inputsBefore := treeDigest(root)
 	var wg sync.WaitGroup
 	sem := make(chan struct{}, 3)
 	for k := range batches {
@@ -485,6 +491,10 @@ func runC11(tier string, seed uint64) int {
 		}(k)
 	}
 	wg.Wait()
+	if ok, why := sameHashes(inputsBefore, treeDigest(root)); !ok {
+		agg.violate("C11", "run_wrote_outside_its_result_folder", "the project / weather / parameter trees changed during the batch executions: "+why)
+	}
+	agg.add("input_tree_files_compared", int64(len(inputsBefore)))
 	agg.cov["distinct_completion_orders"] = int64(len(agg.orders))
 	// termination on logical steps (in-process): fertiliser prediction at every latitude, day-length search loops bounded
 	termCases := 60
